@@ -14,7 +14,7 @@ RULE = (
 )
 BOUNDS = {
     "quick": "every name-terminating punctuation character (23) directly after each of 9 reference forms, followed by text and by another reference; all well-formed chunk sequences of length <=3 over 10 text chunks + 9 references; 2 files x plain, 1 file x onmatch/once for templates of length <=2",
-    "thorough": "all well-formed chunk sequences of length <=4 over 10 text chunks + 6 references, length <=3 over 13 references, length 5 over 4 text chunks + 4 references, length <=4 over 5 text chunks + 13 references; 3 files x 8 forms (length >=4: one file, plain form)",
+    "thorough": "all well-formed chunk sequences of length <=4 over 10 text chunks + 6 references, length <=3 over 13 references, length 5 over 4 text chunks + 4 references, length <=4 over 5 text chunks + 13 references; 3 files x 8 forms, plus a LogPrinter family (length >=4: one file, plain form)",
 }
 CHUNK = 250
 BUDGET = {"quick": 600, "thorough": 3400}
@@ -81,8 +81,15 @@ def lastblank_cases():
             yield {"t": t, "file": f, "form": "lastblank"}
 
 
+def logprinter_cases():
+    """a LogPrinter (the other printer type of docs/printing.md) added next to the default standard-out printer and a capture printer."""
+    for t in templates(2, REFS6[:3], texts=[" ", ": ", "a"]):
+        yield {"t": t, "file": 0, "form": "logprinter"}
+
+
 def cases(tier, seed):
     yield from punct_cases()
+    yield from logprinter_cases()
     yield from lastblank_cases()
     if tier == "quick":
         for t in templates(3, REFS6 + [["r", "headers", "1"], ["r", "headers", "x y"], ["r", "headers", "77"]]):
@@ -127,7 +134,7 @@ def run_case(case):
     dl = ";" if form == "semi" else ","  # the same prints in a CsvPath built with another delimiter, in the same process
     path = sandbox.write_csv(rows, delimiter=dl)
     tmpl = refprint.render(t)
-    q = {"plain": "", "onmatch": ".onmatch", "once": ".once", "named": "", "once_named": ".once", "nodefault": "", "lastblank": "", "semi": "", "reset": ""}[form]
+    q = {"plain": "", "onmatch": ".onmatch", "once": ".once", "named": "", "once_named": ".once", "nodefault": "", "lastblank": "", "semi": "", "reset": "", "logprinter": ""}[form]
     pm = " print-mode: no-default" if form == "nodefault" else ""  # only the registered capture printer exists: it must still get every entry
     filt = ' #a == "k"' if form == "onmatch" else ""
     stream = ', "audit"' if form in ("named", "once_named") else ""
@@ -136,7 +143,34 @@ def run_case(case):
         text = f'~ title: T 1 ~ ${path}[*][ line_number() == 2 -> reset_headers() @x = #a @d.k = #b push("s", #a) print("{tmpl}") ]'
     if form == "lastblank":
         text = f'~ title: T 1 ~ ${path}[*][ @x = #a @d.k = #b push("s", #a) last.nocontrib() -> print("{tmpl}") ]'
-    o = run.run_csvpath(text, delimiter=dl)
+    logged = None
+    if form == "logprinter":
+        import logging
+
+        from csvpath.util.printer import LogPrinter
+
+        logged = []
+
+        class _H(logging.Handler):
+            def emit(self, record):
+                logged.append(record.getMessage())
+
+        lg = logging.getLogger("mcx-c16-logprinter")
+        lg.handlers = [_H()]
+        lg.propagate = False
+        lg.setLevel(logging.INFO)
+        p_, tp_ = run.new_path(("collect",), print_default=True)
+        p_.add_printer(LogPrinter(lg))
+        exc_ = None
+        with sandbox.capture_stdout() as cap_:
+            try:
+                p_.parse(text)
+                p_.collect()
+            except Exception as e:  # noqa: BLE001
+                exc_ = e
+        o = run.observe(p_, tp_, None, exc_, cap_.text)
+    else:
+        o = run.run_csvpath(text, delimiter=dl)
     # model
     exp = []
     stack = []
@@ -209,6 +243,8 @@ def run_case(case):
         elif got != exp:
             k = next(i for i in range(len(exp)) if got[i] != exp[i])
             bad("printed text", got[k], exp[k])
+    if logged is not None and not o["exc"] and logged != exp:
+        bad("entries received by a LogPrinter registered next to the default printer", logged, exp)
     shape = "".join("R" if c[0] == "r" else "t" for c in t)
     nontrivial = any(t[i][0] == "r" and i + 1 < len(t) for i in range(len(t)))
     return {
